@@ -110,8 +110,16 @@ def monitor(c, r):
             out.append((f'invariants evaluated while contracts are disabled on {o}', tag)); break
         if o[0] == 'set' and attrs.get(o[1]) != o[2]:
             out.append((f'assignment {o} was rolled back or lost: {attrs}', tag)); break
-        if o[0] == 'static' and not res.startswith('ok'):
-            out.append((f'{"class" if o[1] % 2 == 0 else "static"} method raised {res}', 'classmethod_validated' if o[1] % 2 == 0 else tag)); break
+        if o[0] == 'static' and o[1] % 2 == 0:
+            # a classmethod called through the instance is a method call made through the instance: not entered on a broken instance
+            if enabled and prev is not None and inv_holds(c, prev) is False and res.startswith('ok'):
+                out.append((f'class method entered through the instance although an invariant was already false: state {prev}', tag)); break
+            if res.startswith('ok') and res != f'ok i{o[1]}':
+                out.append((f'class method result differs from the undecorated class: {res}', tag)); break
+            if not res.startswith('ok') and (not enabled or prev is None or inv_holds(c, prev) is not False):
+                out.append((f'class method raised {res} on an instance whose invariants hold', tag)); break
+        if o[0] == 'static' and o[1] % 2 == 1 and not res.startswith('ok'):
+            out.append((f'static method raised {res}', tag)); break
         if res.startswith('exc KeyError') or res.startswith('exc AttributeError'):
             out.append((f'{o}: the invariant could not be evaluated: {res}', tag)); break
         prev = attrs
